@@ -51,7 +51,6 @@ void h_update(void) {
     }
     V_ASSERT(b.r == 0, "C13: r reset at end of block");
     V_ASSERT(b.begun == (bool)in.begun, "C13: begun untouched by update");
-    V_ASSERT(b.hello_timeout_ts == in.hello_ts, "C13: update does not reschedule hello by itself");
     V_ASSERT(b.block_timeout_ts == in.now_ms + 300, "C13: next block ends BLOCK_TIME after now");
     V_WITNESS("h_update end");
 }
